@@ -382,8 +382,13 @@ class Driver:
                     ev["ret"] = sorted(self.mid_of(x) for x in (res or []))
                 elif name == "WriteMetadata":
                     ev["b"] = op["b"]
+                    ev["wd"] = bool(op.get("wd"))
+                    swck = None
+                    if op.get("wd"):          # put_metadata(..., store_with_data=True): next to the result object
+                        cur = self.current.get((op["f"], op["h"]))
+                        swck = cur.content_key if cur is not None else None
                     b.write_metadata(self.keyrefs([(op["f"], op["h"])])[0], "mk%d" % op["mk"],
-                                     ("meta-bytes-%d" % op["b"]).encode())
+                                     ("meta-bytes-%d" % op["b"]).encode(), store_with_content_key=swck)
                 elif name == "ReadMetadata":
                     res = b.read_metadata(self.keyrefs([(op["f"], op["h"])])[0], "mk%d" % op["mk"])
                     if res is None:
